@@ -187,3 +187,111 @@ Definition spec_round_b (acs : list conv) (f : string) (a : list (string * list 
           | None => false
           end) a
     end) acs.
+
+(* ================================================================ Python values (strengthening round 2)
+   "exactly the given values" when the caller hands over Python objects, written from the property
+   text (its quantifier names empty list, empty string, unicode, booleans/integers):
+     * a value is a str, a bool or an int; what the wire carries for it is the str itself, the
+       xs:boolean lexical form "true"/"false", the decimal numeral — and the AttributeValue is typed
+       accordingly (xs:string / xs:boolean / xs:integer);
+     * a single object stands for the list holding just that object;
+     * None is not a value: a dictionary containing it is outside the property;
+     * eduPersonTargetedID values (wire name = the OID, sent inside NameID elements) are strings. *)
+From Coq Require Import ZArith.
+
+Definition lexical (v : pyval) : option string :=
+  match v with
+  | PStr s => Some s
+  | PBool true => Some "true"
+  | PBool false => Some "false"
+  | PInt z => Some (dec_of_Z z)
+  | PNone => None
+  end.
+
+Definition xs_type (v : pyval) : string :=
+  match v with
+  | PStr _ => "xs:string"
+  | PBool _ => "xs:boolean"
+  | PInt _ => "xs:integer"
+  | PNone => ""
+  end.
+
+Definition given (v : pyvalue) : list pyval := match v with VList l => l | VOne x => [x] end.
+
+Fixpoint lexicals (l : list pyval) : option (list string) :=
+  match l with
+  | [] => Some []
+  | v :: r => match lexical v, lexicals r with Some s, Some ss => Some (s :: ss) | _, _ => None end
+  end.
+
+Definition given_texts (v : pyvalue) : option (list string) := lexicals (given v).
+
+(* the dictionary as lists of strings; None when something in it is not a value *)
+Fixpoint givens (a : pava) : option (list (string * list string)) :=
+  match a with
+  | [] => Some []
+  | e :: r => match given_texts (snd e), givens r with
+              | Some vs, Some r' => Some ((fst e, vs) :: r')
+              | _, _ => None
+              end
+  end.
+
+Definition is_pstr (v : pyval) : bool := match v with PStr _ => true | _ => false end.
+
+(* every attribute that a map for f sends under the eduPersonTargetedID OID has str values *)
+Definition py_scope_b (acs : list conv) (f : string) (a : pava) : bool :=
+  forallb (fun m =>
+    negb (String.eqb (nf m) f) ||
+    forallb (fun e => negb (opt_eqb String.eqb (wire_name m (fst e)) (Some EPTID_OID)) ||
+                      forallb is_pstr (given (snd e))) a) acs.
+
+Definition sres_wire (o : sres) : option (list wattr) :=
+  match o with SOk ws => Some (map fst ws) | _ => None end.
+
+Definition rres_opt (o : rres) : option ava := match o with ROk r => Some r | _ => None end.
+
+(* w is the attribute sent for e and its AttributeValues are typed as e's values are *)
+Definition typed_as (w : wattr * list string) (n : string) (e : string * pyvalue) : Prop :=
+  wname (fst w) = Some n /\ wfriendly (fst w) = Some (fst e) /\ snd w = map xs_type (given (snd e)).
+
+Definition spec_send_py (acs : list conv) (f : string) (a : pava) (out : sres) : Prop :=
+  py_scope_b acs f a = true ->
+  forall a', givens a = Some a' ->
+    spec_send acs f a' (sres_wire out) /\
+    forall m ws, In m acs -> nf m = f -> out = SOk ws ->
+      forall e n, In e a -> wire_name m (fst e) = Some n -> n <> EPTID_OID ->
+        exists w, In w ws /\ typed_as w n e.
+
+Definition spec_round_py (acs : list conv) (f : string) (a : pava) (result : rres) : Prop :=
+  py_scope_b acs f a = true ->
+  forall a', givens a = Some a' -> spec_round acs f a' (rres_opt result).
+
+Definition typed_as_b (w : wattr * list string) (n : string) (e : string * pyvalue) : bool :=
+  opt_eqb String.eqb (wname (fst w)) (Some n) && opt_eqb String.eqb (wfriendly (fst w)) (Some (fst e))
+  && list_eqb String.eqb (snd w) (map xs_type (given (snd e))).
+
+Definition types_b (acs : list conv) (f : string) (a : pava) (out : sres) : bool :=
+  match out with
+  | SOk ws =>
+      forallb (fun m =>
+        negb (String.eqb (nf m) f) ||
+        forallb (fun e => match wire_name m (fst e) with
+                          | Some n => String.eqb n EPTID_OID || existsb (fun w => typed_as_b w n e) ws
+                          | None => true
+                          end) a) acs
+  | _ => true
+  end.
+
+Definition spec_send_py_b (acs : list conv) (f : string) (a : pava) (out : sres) : bool :=
+  negb (py_scope_b acs f a) ||
+  match givens a with
+  | Some a' => spec_send_b acs f a' (sres_wire out) && types_b acs f a out
+  | None => true
+  end.
+
+Definition spec_round_py_b (acs : list conv) (f : string) (a : pava) (result : rres) : bool :=
+  negb (py_scope_b acs f a) ||
+  match givens a with
+  | Some a' => spec_round_b acs f a' (rres_opt result)
+  | None => true
+  end.
